@@ -27,24 +27,69 @@
 (* "system"       name                   system(name)                       *)
 (* "getline_file" name                   getline v < name                   *)
 (* "getline_cmd"  name                   name | getline v                   *)
-(* "operand"      name                   name is the file operand of a      *)
-(*                                       program with a pattern-action rule *)
+(* "operand"      name                   name is the next operand (ARGV     *)
+(*                                       element; cls "computed": appended  *)
+(*                                       to ARGV by the program at run      *)
+(*                                       time) of a program with a          *)
+(*                                       pattern-action rule                *)
 (* "exit" / "rterror" / "finish"         exit / a run-time error / the end  *)
-(* Every act also carries cls ("lit" | "computed": how the name is written  *)
-(* in the program), which the semantics ignores -- that it is ignored is    *)
-(* part of the property.  The payload of the k-th action is the byte 96+k   *)
-(* (a letter), followed by a newline for print, so that loss, duplication   *)
-(* and reordering are all visible in the destinations.  Form "print2" is    *)
-(* print with two arguments: letter, output field separator, letter,        *)
-(* newline; the separator is that of the output mode (cfg.omode: "default"  *)
-(* -> space, "csv" -> comma, "tsv" -> tab).                                 *)
+(* Every act also carries cls, how the name is written in the program:      *)
+(* "lit" | "computed" (the same string, written literally or computed at    *)
+(* run time) and, for the regular files, three more SPELLINGS of the path:  *)
+(* "rel" (./relative/path/f1), "dotdot" (dir/../w/f1) and "devdd"           *)
+(* (/dev/../dir/f1, a path that begins with /dev/ and is no device).  The   *)
+(* semantics ignores cls -- that it is ignored is part of the property:     *)
+(* every spelling of every name meets the same flag checks and the same     *)
+(* open-file function.  (The interpreter keys its streams by the STRING; a  *)
+(* run that used two spellings of one file would have two streams on it,    *)
+(* about which the statement says nothing: within a run a file is used      *)
+(* under one spelling only, see Enabled.)                                   *)
+(*                                                                         *)
+(* Names.  f1 f2 f3: regular files of the work directory.  /dev/null: a     *)
+(* file like any other for the flags and the open-file function; what is    *)
+(* written to it is discarded, reading it gives the end of input at once.   *)
+(* d1: an existing directory (operand only).  Operands "" (skipped by       *)
+(* design) and "v=1" (an assignment) are not files: nothing is opened, no   *)
+(* flag applies; when no file operand follows them the standard input is    *)
+(* the main input, as when the only operand is "-".  An operand that names  *)
+(* a directory or a missing file IS an attempt to open a file for reading:  *)
+(* refused under NoFileReads, else a call of the open-file function; after  *)
+(* that the directory run ends with an error (nothing can be read from it), *)
+(* the error outcome of a failed open is not judged.                        *)
+(*                                                                         *)
+(* The payload of the k-th action is built from the byte 96+k (a lower-case *)
+(* letter) and 64+k (the same letter in upper case), so that loss,          *)
+(* duplication and reordering are all visible in the destinations.  The     *)
+(* SHAPE of a print action (act.shape, "plain" when absent) is the string   *)
+(* argument:  plain  k        nl     k LF                                   *)
+(*            mid    k LF K   midnl  k LF K LF     crlf   k CR LF K         *)
+(* printf "%s" writes the argument, print writes the argument and then the  *)
+(* output record separator LF.  Form "print2" is print with two arguments:  *)
+(* letter, output field separator, letter, newline; the separator is that   *)
+(* of the output mode (cfg.omode: "default" -> space, "csv" -> comma, "tsv" *)
+(* -> tab).                                                                 *)
+(*                                                                         *)
+(* Newline output mode (cfg.nlmode): "raw" -- every written string is       *)
+(* delivered as it is; "crlf" -- CRLF newlines are forced on output: in     *)
+(* every written string each LF that is not already preceded by CR is       *)
+(* delivered as CR LF, nothing else changes (CrlfOf); "smart" -- the mode   *)
+(* of the platform, which is "raw" here (not Windows).  It applies to every *)
+(* destination: standard output, files, commands, /dev/stderr.              *)
 (*                                                                         *)
 (* Commands.  cat, cat3 read their standard input and echo it to the shared *)
 (* standard output (all three forms).  exit3 = `exec 0<&-; exit 3` closes   *)
 (* its standard input at once (output form only): what is written to it is  *)
 (* discarded, close() still waits for it and reports its status 3.  showf1  *)
 (* = `cat f1 2>/dev/null` (system() only) copies file f1, as it is on disk  *)
-(* when the child runs, to the shared standard output.                      *)
+(* when the child runs, to the shared standard output.  spcat = "  cat" (a   *)
+(* command line that starts with blanks) is cat.  empty = "" and blank =    *)
+(* "  " are command lines without a command: under NoExec each of the three *)
+(* forms is refused like any other attempt to start a process; without it   *)
+(* what they do is `sh -c` of that string, i.e. nothing: no output, nothing *)
+(* read, status 0 -- whether a shell is really started for them is NOT      *)
+(* judged then (Prediction lists them; the binding drops them from both     *)
+(* sides unless NoExec is set), and print | "" is only generated under      *)
+(* NoExec (a writer racing with a shell that exits at once).                *)
 (*                                                                         *)
 (* The standard output writer (cfg.wkind): "plain" has no Flush method      *)
 (* (every write goes straight to the underlying writer); the others are     *)
@@ -54,17 +99,29 @@
 (***************************************************************************)
 EXTENDS Strings, TLC
 
-Files    == {"f1", "f2", "f3"}
+Files    == {"f1", "f2", "f3"}         \* regular files of the work directory
+NullFiles == {"/dev/null"}             \* a file for the flags and the open-file function; discards / is empty
+AllFiles == Files \cup NullFiles
+Dirs     == {"d1"}                     \* an existing directory of the work directory (operand only)
+SkipOperands == {"", "v=1"}            \* operands that are not files: skipped by design / an assignment
 Cmds     == {"cat", "cat3"}            \* cat: `cat`;  cat3: `sh -c 'cat; exit 3'`  (read stdin, echo it)
+LeadCmds == {"spcat"}                  \* "  cat": a command line that starts with blanks (= cat)
+BlankCmds == {"empty", "blank"}        \* "" and "  ": command lines without a command
 NoReadCmds == {"exit3"}                \* `sh -c 'exec 0<&-; exit 3'`: never reads what it is sent
 FileCmds == {"showf1"}                 \* `cat f1 2>/dev/null`: shows a file the program may be writing (system() only)
-OutCmds  == Cmds \cup NoReadCmds       \* usable with print | c
-SysCmds  == Cmds \cup FileCmds         \* usable with system(c)
+EchoCmds == Cmds \cup LeadCmds         \* read their standard input and echo it
+OutCmds  == Cmds \cup NoReadCmds \cup LeadCmds \cup BlankCmds      \* usable with print | c
+SysCmds  == Cmds \cup FileCmds \cup LeadCmds \cup BlankCmds        \* usable with system(c)
+InCmds   == Cmds \cup LeadCmds \cup BlankCmds                      \* usable with c | getline
 StdNames == {"-", "/dev/stdout", "/dev/stderr"}
-SNames   == Files \cup OutCmds         \* names that can denote a stream of their own
-NameSeq  == <<"f1", "f2", "f3", "cat", "cat3", "exit3">>
+SNames   == AllFiles \cup OutCmds      \* names that can denote a stream of their own
+NameSeq  == <<"f1", "f2", "f3", "/dev/null", "cat", "cat3", "exit3", "spcat", "empty", "blank">>
 Status(c) == IF c \in {"cat3", "exit3"} THEN 3 ELSE 0
-Reads(c)  == c \notin NoReadCmds
+Reads(c)  == c \notin NoReadCmds \cup BlankCmds
+PathClasses == {"rel", "dotdot", "devdd"}          \* spellings of a regular file's path other than the plain one
+Spelling(k) == IF k \in PathClasses THEN k ELSE "abs"
+NLModes  == {"raw", "crlf", "smart"}
+Shapes   == {"plain", "nl", "mid", "midnl", "crlf"}
 WKinds   == {"plain", "bufio3", "bufio16", "bufio4096"}
 OModes   == {"default", "csv", "tsv"}
 OldContent == <<c_o, LF>>              \* content of a file that exists before the run
@@ -87,21 +144,25 @@ Lines(c) == LET parts == SplitLit(c, <<LF>>)
             IN IF parts[Len(parts)] = <<>> THEN SubSeq(parts, 1, Len(parts) - 1) ELSE parts
 
 NoOut == [open |-> FALSE, kind |-> "none", buf |-> <<>>, pid |-> 0, mode |-> "none", broken |-> FALSE]
-NoIn  == [open |-> FALSE, kind |-> "none", lines |-> <<>>, pid |-> 0]
+NoIn  == [open |-> FALSE, kind |-> "none", lines |-> <<>>, pid |-> 0, judged |-> TRUE]
 
 \* cfg = [ne, nw, nr, custom : BOOLEAN, failAt : Int (-1 = the writer never fails),
 \*        wkind : WKinds (the standard output writer), omode : OModes (the output mode),
+\*        nlmode : NLModes (the newline output mode),
 \*        stdin : sequence of lines, pre : set of files that exist before the (first) run]
+FileState0(cfg, n) == IF n \in NullFiles THEN [ex |-> TRUE, c |-> <<>>]
+                      ELSE IF n \in cfg.pre THEN [ex |-> TRUE, c |-> OldContent] ELSE [ex |-> FALSE, c |-> <<>>]
 InitState(cfg) ==
   [ flags    |-> [ne |-> cfg.ne, nw |-> cfg.nw, nr |-> cfg.nr],
     custom   |-> cfg.custom,
     failAt   |-> cfg.failAt,
     buffered |-> cfg.wkind # "plain",
     omode    |-> cfg.omode,
+    crlf     |-> cfg.nlmode = "crlf",     \* "smart" is "raw" on this platform
     outs     |-> [n \in SNames |-> NoOut],
     ins      |-> [n \in SNames |-> NoIn],
-    fsys     |-> [n \in Files |-> IF n \in cfg.pre THEN [ex |-> TRUE, c |-> OldContent] ELSE [ex |-> FALSE, c |-> <<>>]],
-    fsys0    |-> [n \in Files |-> IF n \in cfg.pre THEN [ex |-> TRUE, c |-> OldContent] ELSE [ex |-> FALSE, c |-> <<>>]],
+    fsys     |-> [n \in AllFiles |-> FileState0(cfg, n)],
+    fsys0    |-> [n \in AllFiles |-> FileState0(cfg, n)],
     stdin    |-> cfg.stdin,
     taint    |-> FALSE,      \* a child process was given the run's standard input
     swritten |-> <<>>,       \* everything the program itself wrote to standard output, in order
@@ -113,12 +174,15 @@ InitState(cfg) ==
     procs    |-> <<>>,       \* started processes, in start order
     opens    |-> <<>>,       \* calls of the open-file function, in order
     notes    |-> <<>>,       \* values the program observed (close / getline / system results, records)
-    wr       |-> [n \in Files |-> [used |-> FALSE, base |-> <<>>, data |-> <<>>]],   \* ghost: current/last write session
+    wr       |-> [n \in AllFiles |-> [used |-> FALSE, base |-> <<>>, data |-> <<>>]],   \* ghost: current/last write session
+    spell    |-> [n \in Files |-> "none"],   \* ghost: the spelling under which the run uses the file
     everRead |-> {},         \* ghost: files opened for reading
     denied   |-> FALSE,      \* an attempt was refused by a deny flag
     conflict |-> FALSE,      \* the run used a name in both directions at once (outcome not fixed by the statement)
     lostWrite |-> FALSE,     \* the run wrote to a command that never reads (whether that is an error is not fixed by the statement)
-    mainDone |-> FALSE,      \* the operand has been read (only the normal end can follow)
+    openFailed |-> FALSE,    \* the run opened something that cannot be opened (outcome not fixed by the statement)
+    skipped  |-> FALSE,      \* an operand that is not a file has been passed (only operands and the normal end can follow)
+    mainDone |-> FALSE,      \* the main input has been read (only the normal end can follow)
     step     |-> 0,
     result   |-> "run" ]     \* "run" | "ok" | "exit" | "error"
 
@@ -142,7 +206,8 @@ FlushOut(st, n) ==
   LET o == st.outs[n]
   IN IF ~o.open THEN st
      ELSE IF o.kind = "file"
-          THEN [st EXCEPT !.fsys[n].c = @ \o o.buf, !.outs[n].buf = <<>>]
+          THEN (IF n \in NullFiles THEN [st EXCEPT !.outs[n].buf = <<>>]            \* discarded
+                ELSE [st EXCEPT !.fsys[n].c = @ \o o.buf, !.outs[n].buf = <<>>])
           ELSE IF Reads(n)
           THEN [st EXCEPT !.procs[o.pid].fed = @ \o o.buf, !.outs[n].buf = <<>>]
           \* the command has closed its standard input: the bytes are discarded (the stream is broken from then on)
@@ -177,6 +242,7 @@ End(st, res) ==
 
 Deny(st)     == End([st EXCEPT !.denied = TRUE], "error")
 Conflict(st) == End([st EXCEPT !.conflict = TRUE], "error")
+OpenFails(st) == End([st EXCEPT !.openFailed = TRUE], "error")
 
 Note(st, k, v, s, j) == [st EXCEPT !.notes = Append(@, [k |-> k, v |-> v, s |-> s, j |-> j])]
 
@@ -187,17 +253,39 @@ StartProc(st, c, kind) ==
                                   sysout |-> IF kind = "sys" /\ c \in FileCmds /\ st.fsys["f1"].ex THEN st.fsys["f1"].c ELSE <<>>])]
 
 FieldSep(st) == CASE st.omode = "csv" -> COMMA [] st.omode = "tsv" -> TAB [] OTHER -> SP
+
+\* CRLF newlines forced on output: every LF of a written string that is not already preceded by CR becomes CR LF
+CrlfOf(s) ==
+  LET RECURSIVE From(_)
+      From(i) == IF i > Len(s) THEN <<>>
+                 ELSE (IF s[i] = LF /\ (i = 1 \/ s[i - 1] # CR) THEN <<CR, LF>> ELSE <<s[i]>>) \o From(i + 1)
+  IN From(1)
+\* one written string, as delivered
+Out(st, s) == IF st.crlf THEN CrlfOf(s) ELSE s
+
+ShapeOf(act) == IF "shape" \in DOMAIN act /\ act.shape # "" THEN act.shape ELSE "plain"
+\* the string argument of the k-th action
+ShapeArg(sh, k) ==
+  CASE sh = "nl"    -> <<96 + k, LF>>
+    [] sh = "mid"   -> <<96 + k, LF, 64 + k>>
+    [] sh = "midnl" -> <<96 + k, LF, 64 + k, LF>>
+    [] sh = "crlf"  -> <<96 + k, CR, LF, 64 + k>>
+    [] OTHER        -> <<96 + k>>
+\* the strings a print statement writes, in order: printf the argument; print the argument and the record separator;
+\* print with two arguments also the field separator between them
 Payload(st, act) ==
-  CASE act.form = "printf" -> <<96 + st.step>>
-    [] act.form = "print2" -> <<96 + st.step, FieldSep(st), 96 + st.step, LF>>
-    [] OTHER               -> <<96 + st.step, LF>>
+  LET arg == ShapeArg(ShapeOf(act), st.step)
+  IN CASE act.form = "printf" -> Out(st, arg)
+       [] act.form = "print2" -> Out(st, arg) \o Out(st, <<FieldSep(st)>>) \o Out(st, arg) \o Out(st, <<LF>>)
+       [] OTHER               -> Out(st, arg) \o Out(st, <<LF>>)
+NoCR(c) == \A i \in 1..Len(c) : c[i] # CR
 
 \* ------------------------------------------------------------------ print
 PrintFile(st, act, data) ==
   LET n == act.name IN
   IF n = "-" THEN WriteStdout(st, data)
-  ELSE IF n \in Files /\ st.ins[n].open THEN Conflict(st)
-  ELSE IF n \in Files /\ st.outs[n].open
+  ELSE IF n \in AllFiles /\ st.ins[n].open THEN Conflict(st)
+  ELSE IF n \in AllFiles /\ st.outs[n].open
        THEN [st EXCEPT !.outs[n].buf = @ \o data, !.wr[n].data = @ \o data]      \* one name = one stream
   ELSE IF st.flags.nw THEN Deny(st)
   ELSE IF n = "/dev/stdout" THEN WriteStdout(st, data)
@@ -265,13 +353,13 @@ GetlineFile(st, act) ==
   THEN IF st.stdin = <<>> THEN Note(st, "getline", 0, <<>>, ~st.taint)
        ELSE Note([st EXCEPT !.stdin = Tail(@)], "getline", 1, Head(st.stdin), ~st.taint)
   ELSE IF st.outs[n].open THEN Conflict(st)
-  ELSE IF st.ins[n].open THEN ReadIn(st, n, TRUE)
+  ELSE IF st.ins[n].open THEN ReadIn(st, n, st.ins[n].judged)
   ELSE IF st.flags.nr THEN Deny(st)
   ELSE IF ~st.fsys[n].ex      \* the attempt is a call of the open-file function all the same
        THEN Note([st EXCEPT !.opens = Append(@, [name |-> n, mode |-> "read"])], "getline", 0 - 1, <<>>, FALSE)
-  ELSE ReadIn([st EXCEPT !.ins[n]   = [open |-> TRUE, kind |-> "file", lines |-> Lines(st.fsys[n].c), pid |-> 0],
+  ELSE ReadIn([st EXCEPT !.ins[n]   = [open |-> TRUE, kind |-> "file", lines |-> Lines(st.fsys[n].c), pid |-> 0, judged |-> NoCR(st.fsys[n].c)],
                          !.opens    = Append(@, [name |-> n, mode |-> "read"]),
-                         !.everRead = @ \cup {n}], n, TRUE)
+                         !.everRead = @ \cup {n}], n, NoCR(st.fsys[n].c))
 
 GetlineCmd(st, act) ==
   LET c == act.name IN
@@ -280,19 +368,29 @@ GetlineCmd(st, act) ==
   ELSE IF st.flags.ne THEN Deny(st)
   ELSE LET s1  == StartProc(Deliver(st), c, "in")
            pid == Len(s1.procs)
-       IN ReadIn([s1 EXCEPT !.ins[c] = [open |-> TRUE, kind |-> "cmd", lines |-> st.stdin, pid |-> pid],
+       IN ReadIn([s1 EXCEPT !.ins[c] = [open |-> TRUE, kind |-> "cmd", lines |-> IF c \in EchoCmds THEN st.stdin ELSE <<>>, pid |-> pid, judged |-> FALSE],
                             !.taint = @ \/ st.stdin # <<>>, !.stdin = <<>>], c, FALSE)
 
 \* ------------------------------------------------------------------ operand
 RECURSIVE NoteRecs(_, _, _)
 NoteRecs(st, ls, judged) == IF ls = <<>> THEN st ELSE NoteRecs(Note(st, "rec", 0, Head(ls), judged), Tail(ls), judged)
 
+\* the standard input is the main input (the operand "-", or no file operand at all)
+MainStdin(st) == NoteRecs([st EXCEPT !.stdin = <<>>, !.mainDone = TRUE], st.stdin, ~st.taint)
+
 Operand(st, act) ==
-  LET n == act.name IN
-  IF n = "-" THEN NoteRecs([st EXCEPT !.stdin = <<>>, !.mainDone = TRUE], st.stdin, ~st.taint)
-  ELSE IF st.flags.nr THEN Deny(st)
-  ELSE NoteRecs([st EXCEPT !.opens = Append(@, [name |-> n, mode |-> "read"]), !.everRead = @ \cup {n}, !.mainDone = TRUE],
-                Lines(st.fsys[n].c), TRUE)
+  LET n == act.name
+      opened == [st EXCEPT !.opens = Append(@, [name |-> n, mode |-> "read"]), !.mainDone = TRUE]
+  IN
+  IF n \in SkipOperands THEN [st EXCEPT !.skipped = TRUE]          \* not a file: nothing is opened, no flag applies
+  ELSE IF n = "-" THEN MainStdin(st)
+  ELSE IF st.flags.nr THEN Deny(st)                               \* every other operand is an attempt to open a file
+  ELSE IF n \in Dirs THEN End(opened, "error")                    \* opened through the function; nothing can be read from it
+  ELSE IF ~st.fsys[n].ex THEN OpenFails(opened)                   \* the attempt is a call of the open-file function all the same
+  ELSE NoteRecs([opened EXCEPT !.everRead = @ \cup {n}], Lines(st.fsys[n].c), NoCR(st.fsys[n].c))
+
+\* the normal end: when only operands that are not files were given, the standard input is the main input
+Finish(st) == End(IF st.skipped /\ ~st.mainDone THEN MainStdin(st) ELSE st, "ok")
 
 \* -------------------------------------------------------------------- Apply
 Apply0(st, act) ==
@@ -305,37 +403,72 @@ Apply0(st, act) ==
     [] act.op = "operand"      -> Operand(st, act)
     [] act.op = "exit"         -> End(st, "exit")
     [] act.op = "rterror"      -> End(st, "error")
-    [] act.op = "finish"       -> End(st, "ok")
+    [] act.op = "finish"       -> Finish(st)
 
-Apply(st, act) == Apply0([st EXCEPT !.step = @ + 1], act)
+\* the regular file an action names ("" when it names none)
+HasName(act) == act.op \in {"print", "close", "fflush", "system", "getline_file", "getline_cmd", "operand"}
+FileOf(act) == IF HasName(act) /\ act.name \in Files /\ ~(act.op = "print" /\ act.dest # "file") THEN act.name ELSE ""
+ClsOf(act)  == IF "cls" \in DOMAIN act THEN act.cls ELSE "lit"
+
+Apply(st, act) ==
+  LET f == FileOf(act)
+      s1 == IF f # "" /\ st.spell[f] = "none" THEN [st EXCEPT !.spell[f] = Spelling(ClsOf(act))] ELSE st
+  IN Apply0([s1 EXCEPT !.step = @ + 1], act)
 
 \* What the specification leaves open is not generated:
 \*  - output to "-", /dev/stdout, /dev/stderr while NoFileWrites is set (the statement only says that
 \*    no FILE may be created, truncated or appended to);
-\*  - a file operand that does not exist or is being written at that moment;
-\*  - anything after the operand except the normal end (operands are read after BEGIN);
-\*  - another print to a command that does not read after a flush of that stream has lost bytes.
+\*  - a file operand that is being written at that moment;
+\*  - anything after the file operand except the normal end, anything but operands after an operand (operands
+\*    are read after BEGIN);
+\*  - another print to a command that does not read after a flush of that stream has lost bytes;
+\*  - print | "" and print | "  " unless NoExec refuses them (the shell exits at once: a race with the writer);
+\*  - two spellings of one file in one run (two streams on one file);
+\*  - payloads other than "plain" in CSV / TSV output mode (quoting rules of their own), or with two arguments.
 Enabled(st, act) ==
   /\ st.result = "run"
   /\ (act.op = "print" /\ act.dest = "cmd" /\ act.name \in NoReadCmds) => ~st.outs[act.name].broken
+  /\ (act.op = "print" /\ act.dest = "cmd" /\ act.name \in BlankCmds) => st.flags.ne
   /\ (act.op = "print" /\ act.dest = "file" /\ act.name \in StdNames) => ~st.flags.nw
-  /\ act.op = "operand" => (IF act.name = "-" THEN TRUE ELSE st.fsys[act.name].ex /\ ~st.outs[act.name].open)
+  /\ (act.op = "print" /\ ShapeOf(act) # "plain") => (st.omode = "default" /\ act.form # "print2")
+  /\ act.op = "operand" => (IF act.name \in {"-"} \cup SkipOperands \cup Dirs THEN TRUE ELSE ~st.outs[act.name].open)
+  /\ FileOf(act) # "" => st.spell[FileOf(act)] \in {"none", Spelling(ClsOf(act))}
+  /\ st.skipped => act.op \in {"operand", "finish"}
   /\ st.mainDone => act.op = "finish"
 
 \* ------------------------------------------------------------------- menus
 \* Action instances over the given file names / name classes / print forms.
 OutNames(fs) == fs \cup StdNames
+\* (the path spellings exist for the regular files only; a "computed" operand is one the program appends to ARGV
+\* at run time)
+ClsFits(n, k) == k \in PathClasses => n \in Files
 Menu(fs, classes, forms) ==
+  LET plainCls == classes \ PathClasses IN
        {[op |-> "print", dest |-> "stdout", name |-> "", mode |-> "none", form |-> f, cls |-> "lit"] : f \in forms}
-  \cup {[op |-> "print", dest |-> "file", name |-> n, mode |-> m, form |-> f, cls |-> k] :
-            n \in OutNames(fs), m \in {"trunc", "append"}, f \in forms, k \in classes}
-  \cup {[op |-> "print", dest |-> "cmd", name |-> c, mode |-> "pipe", form |-> f, cls |-> k] : c \in Cmds, f \in forms, k \in classes}
-  \cup {[op |-> "close", name |-> n, cls |-> k] : n \in fs \cup Cmds, k \in classes}
+  \cup {a \in {[op |-> "print", dest |-> "file", name |-> n, mode |-> m, form |-> f, cls |-> k] :
+            n \in OutNames(fs), m \in {"trunc", "append"}, f \in forms, k \in classes} : ClsFits(a.name, a.cls)}
+  \cup {[op |-> "print", dest |-> "cmd", name |-> c, mode |-> "pipe", form |-> f, cls |-> k] : c \in Cmds, f \in forms, k \in plainCls}
+  \cup {a \in {[op |-> "close", name |-> n, cls |-> k] : n \in fs \cup Cmds, k \in classes} : ClsFits(a.name, a.cls)}
   \cup {[op |-> "fflush", name |-> n, cls |-> "lit"] : n \in fs \cup Cmds \cup {""}}
-  \cup {[op |-> "system", name |-> c, cls |-> k] : c \in Cmds, k \in classes}
-  \cup {[op |-> "getline_file", name |-> n, cls |-> k] : n \in fs \cup {"-"}, k \in classes}
-  \cup {[op |-> "getline_cmd", name |-> c, cls |-> k] : c \in Cmds, k \in classes}
-  \cup {[op |-> "operand", name |-> n, cls |-> "lit"] : n \in fs \cup {"-"}}
+  \cup {[op |-> "system", name |-> c, cls |-> k] : c \in Cmds, k \in plainCls}
+  \cup {a \in {[op |-> "getline_file", name |-> n, cls |-> k] : n \in fs \cup {"-"}, k \in classes} : ClsFits(a.name, a.cls)}
+  \cup {[op |-> "getline_cmd", name |-> c, cls |-> k] : c \in Cmds, k \in plainCls}
+  \cup {a \in {[op |-> "operand", name |-> n, cls |-> k] : n \in fs \cup {"-"}, k \in classes} : ClsFits(a.name, a.cls)}
+\* the C12 additions: command lines without a command / starting with blanks in all three forms, operands that are
+\* a directory, skipped by design, an assignment
+SandboxExtra(classes) ==
+  LET plainCls == classes \ PathClasses IN
+       {[op |-> "print", dest |-> "cmd", name |-> c, mode |-> "pipe", form |-> "print", cls |-> k] : c \in LeadCmds \cup BlankCmds, k \in plainCls}
+  \cup {[op |-> "system", name |-> c, cls |-> k] : c \in LeadCmds \cup BlankCmds, k \in plainCls}
+  \cup {[op |-> "getline_cmd", name |-> c, cls |-> k] : c \in LeadCmds \cup BlankCmds, k \in plainCls}
+  \cup {[op |-> "close", name |-> c, cls |-> k] : c \in LeadCmds, k \in plainCls}
+  \cup {[op |-> "operand", name |-> n, cls |-> k] : n \in Dirs \cup SkipOperands, k \in plainCls}
+\* the C13 addition of payload shapes: print / printf of a string with newlines in it to every kind of destination
+ShapedPrints(fs, shapes) ==
+  LET Sh(a, sh) == [op |-> "print", dest |-> a.dest, name |-> a.name, mode |-> a.mode, form |-> a.form, cls |-> a.cls, shape |-> sh]
+      base == {a \in Menu(fs, {"lit"}, {"print", "printf"}) : a.op = "print"}
+              \cup {[op |-> "print", dest |-> "cmd", name |-> c, mode |-> "pipe", form |-> f, cls |-> "lit"] : c \in LeadCmds, f \in {"print", "printf"}}
+  IN {Sh(a, sh) : a \in base, sh \in shapes}
 \* the C13 additions: a command that never reads, a system() child that shows a file, print with two arguments
 ExtraMenu(classes) ==
        {[op |-> "print", dest |-> "cmd", name |-> c, mode |-> "pipe", form |-> "print", cls |-> k] : c \in NoReadCmds, k \in classes}
@@ -394,10 +527,10 @@ SeqSchedule(pp, kids, pi) ==
 \* What the specification predicts about the observables of a finished run.
 Prediction(st) ==
   [ err         |-> st.result = "error",
-    errJudged   |-> ~st.conflict /\ ~st.lostWrite,
+    errJudged   |-> ~st.conflict /\ ~st.lostWrite /\ ~st.openFailed,
     opens       |-> st.opens,
     starts      |-> [k \in 1..Len(st.procs) |-> st.procs[k].cmd],
-    files       |-> st.fsys,
+    files       |-> [n \in Files |-> st.fsys[n]],
     stdout      |-> [prog |-> st.sdel, kids |-> KidSeq(st)],
     stdoutJudged |-> ~st.taint /\ st.failAt < 0,
     serr        |-> st.serr,
